@@ -8,8 +8,10 @@ export CARGO_NET_OFFLINE=true
 cd "$ROOT/coq"
 coq_makefile -f _CoqProject $(find Model Spec Proofs Props -name '*.v' | sort) -o Makefile > /dev/null
 mkdir -p "$ROOT/build"
-timeout 3000 make -j16 2>&1 | tee "$ROOT/build/coq_build.log" | grep -v "^COQC\|^COQDEP\|^CAMLOPT" || true
-test "${PIPESTATUS[0]}" = 0 || { echo "coq build failed"; exit 1; }
+# -k: a property file whose proofs are missing or broken must not stop the others from being built;
+# each check re-builds its own Props/<id>.vo and reports a broken proof itself
+timeout 3000 make -j16 -k 2>&1 | tee "$ROOT/build/coq_build.log" | grep -v "^COQC\|^COQDEP\|^CAMLOPT" || true
+for f in Model/*.v; do test -f "${f}o" || { echo "coq model build failed: $f"; exit 1; }; done
 cd "$ROOT/ocaml"
 timeout 600 coqc -Q ../coq/Model RV.Model -Q ../coq/Spec RV.Spec -Q ../coq/Proofs RV.Proofs -Q ../coq/Props RV.Props -Q ../coq/Extract RV.Extract ../coq/Extract/Extract.v > /dev/null
 ocamlfind ocamlopt -O2 -w -a -package str rvmodel.mli rvmodel.ml conv.ml driver.ml d_lex.ml d_parse.ml d_cfg.ml d_yaml.ml main.ml -o driver 2>/dev/null \
